@@ -377,7 +377,7 @@ def run(ctx):
                             witness.setdefault(d, (ra, rb, kind))
             want_dep = set(need_reads(nd))
             dependence['%s [%s]' % (rule, sev)] = {'reads': sorted('%s:%s' % d for d in seen_dep), 'need': nd}
-            if gen_ok and gen_all and seen_dep != want_dep:
+            if gen_targets and gen_ok and gen_all and seen_dep != want_dep:
                 foreign = sorted(seen_dep - want_dep)
                 ra, rb, kind = witness[foreign[0]] if foreign else (gen_ok[0], gen_ok[0], 'v1')
                 bad.append((rb, 'gate-follows-foreign-capability' if foreign else 'gate-ignores-its-capability',
